@@ -110,7 +110,7 @@ def busy_close_case(draw, tier="quick"):
 
 
 def run_lifecycle(case: dict) -> Outcome:
-    flags = {"reconfig_dropped": False, "reset_overtook_data": False, "open_on_closing": False}
+    flags = {"reconfig_dropped": False, "reset_overtook_data": False, "open_on_closing": False, "late_reset_on_new_channel": False}
     out = _run_lifecycle(case, flags)
     out.info.update(flags)
     return out
@@ -236,10 +236,26 @@ def _run_lifecycle(case: dict, flags: dict) -> Outcome:
             t._data_channel_receive = wrapped_dc  # type: ignore[method-assign]
             orig = t._receive_reconfig_param
 
-            async def wrapped(param, t=t, orig=orig):
+            awaiting_peer_reset: dict = {}  # stream id -> True once this side freed the id before the peer reset its direction
+
+            async def wrapped(param, t=t, orig=orig, awaiting_peer_reset=awaiting_peer_reset):
                 if isinstance(param, S.StreamResetOutgoingParam) and t._last_received_tsn is not None and \
                         uint32_gt(param.last_tsn, t._last_received_tsn):
                     flags["reset_overtook_data"] = True
+                if isinstance(param, S.StreamResetOutgoingParam):
+                    for sid in param.streams:
+                        ch = t._data_channels.get(sid)
+                        if awaiting_peer_reset.pop(sid, False) and ch is not None and ch.readyState in ("connecting", "open"):
+                            # the peer's reset of its direction of the *previous* channel on this stream arrives after this
+                            # side has handed the id to a new channel: it is carried out on the new one - fourth finding
+                            flags["late_reset_on_new_channel"] = True
+                if isinstance(param, S.StreamResetResponseParam) and t._reconfig_request is not None and \
+                        param.response_sequence == t._reconfig_request.request_sequence:
+                    for sid in t._reconfig_request.streams:
+                        if sid in t._inbound_streams or sid in t._data_channels:
+                            # (the peer's request for this stream resets the inbound stream; as long as that has not
+                            # happened the peer's direction is live)
+                            awaiting_peer_reset[sid] = sid in t._inbound_streams
                 await orig(param)
 
             t._receive_reconfig_param = wrapped  # type: ignore[method-assign]
@@ -442,6 +458,9 @@ CHECK = Check(
         # besides the half-closed channel, the old stream's late DATA can then surface on a channel that reuses the id
         "open-overtakes-reset-response": lambda fam, case, out: out.kind in ("never-opened", "datachannel-unmatched", "datachannel-fields", "undelivered",
                                                                             "close-incomplete") and bool(out.info.get("open_on_closing")),
+        "late-reset-closes-new-channel": lambda fam, case, out: out.kind in ("never-opened", "datachannel-unmatched", "datachannel-fields", "undelivered",
+                                                                            "close-incomplete", "transcript-extra-message", "transcript-corrupted")
+        and bool(out.info.get("late_reset_on_new_channel")),
         "reset-overtakes-data": lambda fam, case, out: out.kind in ("close-incomplete", "transcript-extra-message", "transcript-corrupted",
                                                                    "datachannel-unmatched", "datachannel-fields", "never-opened", "undelivered") and bool(out.info.get("reset_overtook_data")),
     },
